@@ -174,7 +174,16 @@ pub fn payload(base: &[u8], p: &LaxPayloadSlice) -> String {
         LaxPayloadSlice::Icmpv6 { payload, incomplete } => {
             format!("icmp6({},{})", b(*incomplete), off(base, payload))
         }
-        LaxPayloadSlice::LinuxSll(_) => "sll".to_string(),
+        LaxPayloadSlice::LinuxSll(l) => {
+            let (k, v): (&str, u16) = match l.protocol_type {
+                LinuxSllProtocolType::Ignored(v) => ("ignored", v),
+                LinuxSllProtocolType::NetlinkProtocolType(v) => ("netlink", v),
+                LinuxSllProtocolType::GenericRoutingEncapsulationProtocolType(v) => ("gre", v),
+                LinuxSllProtocolType::EtherType(v) => ("ethertype", v.0),
+                LinuxSllProtocolType::LinuxNonstandardEtherType(v) => ("nonstandard", v.into()),
+            };
+            format!("sll({}:{},{})", k, v, off(base, l.payload))
+        }
     }
 }
 
@@ -226,6 +235,17 @@ fn ip_err(e: &err::ip::LaxHeaderSliceError) -> String {
     match e {
         I::Len(l) => len_err(l),
         I::Content(c) => slice_err(&SliceError::Ip(c.clone())),
+    }
+}
+
+/// `sll <hex>`: LaxPacketHeaders::from_linux_sll (the only lax Linux SLL entry point)
+#[allow(dead_code)]
+pub fn run_sll(data: &[u8]) -> String {
+    use err::linux_sll::HeaderSliceError as E;
+    match LaxPacketHeaders::from_linux_sll(data) {
+        Ok(h) => format!("sll H={}", render(data, &of_lax_headers(&h))),
+        Err(E::Len(l)) => format!("sll H=err({})", len_err(&l)),
+        Err(E::Content(c)) => format!("sll H=err({})", slice_err(&SliceError::LinuxSll(c))),
     }
 }
 
